@@ -103,6 +103,15 @@ def check(ctx):
             re_s = ResultEdges(sb, sflow, b)
             if (tests or re_s.inspected) and err_return_blocks(sb):
                 me = [1]
+            elif re_s.inspected:
+                # ... or an Err value built on the failure edge travels to the return through Result combinators (`.map(finish)`)
+                for e in re_s.err:
+                    R = sb.reachable_from([e[1]])
+                    for blk_, _j, s_ in sb.assigns():
+                        rv_ = s_['rv']
+                        if blk_ in R and rv_['k'] == 'aggregate' and rv_.get('agg') == 'adt' and strip_generics(rv_['adt']) == 'core::result::Result' and rv_.get('variant') == 1 \
+                                and 0 in sflow.forward([s_['lhs']['l']]):
+                            me = [1]
         ctx.ob('C19.V3', 'on_serialize|error-converted', not unw and bool(me), site(sb, t['cs']),
                'a serialisation failure becomes CorruptedState' if not unw and me else 'serialisation result is unwrapped (%s): a failure kills the keyspace actor' % unw)
     hs = [b for b in facts.bodies.values() if b.kind == 'coroutine' and 'rpc::services::replication_impl::ReplicationService' in b.name
